@@ -2,7 +2,8 @@
 (* Leg T of C15: histories recorded from the real trie (harness: `vh trie-drive`), one event per
    public call at its return, validated against the property-level layer of TrieOps.
    event = [sid, op \in {"add","del","clone"}, arg, ret, members (ForEach results, in call order),
-            has (sequence of [p, r]: probe and Has(p))] *)
+            has (sequence of [p, r]: probe and Has(p)), nested, inner (the members reported by a ForEach
+            that ran inside the callback of the ForEach that reported members)] *)
 EXTENDS TrieOps, Integers, TLC, Json
 
 Trace == ndJsonDeserialize("trace.ndjson")
@@ -22,6 +23,8 @@ Reason(M0, M1, e) ==
   ELSE IF ~e.obs THEN "ok"                                   \* nothing was observed after this step
   ELSE IF ToSet(e.members) # M1 THEN "foreach-members"
   ELSE IF Len(e.members) # Cardinality(M1) THEN "foreach-duplicate"
+  ELSE IF e.nested /\ ToSet(e.inner) # M1 THEN "foreach-inside-foreach-members"
+  ELSE IF e.nested /\ Len(e.inner) # Cardinality(M1) THEN "foreach-inside-foreach-duplicate"
   ELSE IF \E i \in 1..Len(e.has) : e.has[i].r # PHas(M1, e.has[i].p) THEN "has"
   ELSE "ok"
 
